@@ -213,6 +213,7 @@ func RunC18(c *Ctx) {
 			other := cases[r.IntN(len(cases))]
 			digestOf(other.entry, other.input)
 		}
+		c.Journal(cs.entry, cs.input)
 		d, _ := digestOf(cs.entry, cs.input)
 		c.Eval()
 		if d != ref[i] {
@@ -227,6 +228,7 @@ func RunC18(c *Ctx) {
 		if cs.entry == "split" {
 			continue
 		}
+		c.Journal(cs.entry, cs.input)
 		p1 := ParseNoBudget(cs.entry, cs.input)
 		j := i
 		if r.IntN(2) == 0 {
@@ -308,6 +310,7 @@ func RunC18(c *Ctx) {
 				}
 			}(g)
 		}
+		c.Journal("concurrent-round", fmt.Sprint(round))
 		close(start)
 		wg.Wait()
 		c.Count("concurrent_calls", int64(G*per))
